@@ -139,7 +139,9 @@ class Recorder:
             raise Inconclusive(f"case exceeded {CASE_WALL_LIMIT}s of wall clock")
 
         old = signal.signal(signal.SIGALRM, on_alarm)
-        signal.setitimer(signal.ITIMER_REAL, CASE_WALL_LIMIT)
+        limit = 8000.0 if isinstance(case, dict) and case.get("kind") == "campaign" \
+            else CASE_WALL_LIMIT
+        signal.setitimer(signal.ITIMER_REAL, limit)
         try:
             try:
                 info = self.part.run_case(case)
@@ -161,7 +163,10 @@ class Recorder:
                 if key not in self.buckets or len(canon(case)) < len(canon(self.buckets[key][0])):
                     self.buckets[key] = (case, v.to_json())
                 return
-            self.last_failure = (case, v.to_json())
+            vj = v.to_json()
+            if getattr(v, "replay_part", None):
+                vj["replay_part"] = v.replay_part  # a campaign reports a case of another part
+            self.last_failure = (getattr(v, "replay_case", None) or case, vj)
             raise
         if info is None:
             info = CaseInfo()
@@ -310,7 +315,8 @@ def run_check(mod: Any, tier: str, seed: int, only_part: Optional[str], collect:
             if len(samples) < 3:
                 samples.extend(r["samples"][: 3 - len(samples)])
             if r.get("failure"):
-                failures.append((p.name, r["failure"][0], r["failure"][1]))
+                failures.append((r["failure"][1].get("replay_part", p.name), r["failure"][0],
+                                 r["failure"][1]))
             buckets.update(r.get("buckets", {}))
         per_part[p.name] = {
             "evaluations": sum(r["evals"] for r in rs),
